@@ -1,6 +1,9 @@
 use std::{fs::File, mem, sync::Arc};
 
+#[cfg(feature = "verif")]
+use crate::verif::sync::{Mutex, RwLock, RwLockReadGuard, RwLockWriteGuard};
 use log::{debug, trace};
+#[cfg(not(feature = "verif"))]
 use parking_lot::{Mutex, RwLock, RwLockReadGuard, RwLockWriteGuard};
 
 use crate::{Database, Error, Reader, RegionMetadata, Result, WeakDatabase};
@@ -97,6 +100,14 @@ impl Region {
             let abs_offset = region_start + offset;
             let slice = unsafe { std::slice::from_raw_parts_mut(ptr.add(abs_offset), value_len) };
             write_fn(&value, slice);
+            #[cfg(feature = "verif")]
+            crate::verif::io_note(
+                crate::verif::FileKind::Data,
+                crate::verif::IoKind::Write,
+                abs_offset,
+                value_len,
+                slice,
+            );
             dirty_start = dirty_start.min(offset);
             dirty_end = dirty_end.max(end_offset);
         }
@@ -290,8 +301,12 @@ impl Region {
             new_start
         };
 
+        #[cfg(feature = "verif")]
+        crate::verif::pause("relocate:reserved");
         db.copy(start, new_start, copy_len)?;
         db.write(new_start + write_offset, data);
+        #[cfg(feature = "verif")]
+        crate::verif::pause("relocate:copied");
 
         trace!(
             "{}: '{}' write_with re-acquiring layout_mut (after relocation)",
@@ -371,6 +386,14 @@ impl Region {
         // Data MUST be durable before metadata — if we crash after metadata sync
         // but before data sync, metadata could reference unwritten data.
         if data_flushed || meta_flushed {
+            #[cfg(feature = "verif")]
+            crate::verif::io(
+                crate::verif::FileKind::Data,
+                crate::verif::IoKind::Sync,
+                0,
+                0,
+                &[],
+            )?;
             db.file().sync_data()?;
             regions.sync_data()?;
         }
